@@ -61,7 +61,8 @@ def pre_removal(ctx, rule='A14p'):
     from ..rules import intcmp
     assigns = {}
     filt = None
-    for st in ast.walk(fn.node):
+    unit = unit_functions(ctx.prog, fn)
+    for st in (x for u in unit for x in ast.walk(u.node)):
         if isinstance(st, ast.Assign) and isinstance(st.targets[0], ast.Name) and \
                 st.targets[0].id in ('i_start', 'n_dec_after', 'i_end'):
             assigns[st.targets[0].id] = st.value
@@ -98,7 +99,47 @@ def pre_removal(ctx, rule='A14p'):
     ctx.ob(rule, fkey(fn, rule, 'norepl-only-if-all-permanent'), ok, fn.where,
            'the window is only applied when every constrained choice is permanent (otherwise some choices may be '
            'inactive and the window would over-prune)', '')
-    ok = 'if n_dec > n_opt_max' in txt and 'n_opt_max = max([len(options) for options in choice_constraint.options])' in txt
+    # PERMUTATION overflow: a comparison of the number of choices (len(<c>.nodes)) with the largest option count
+    # (max(len(..)) over <c>.options); the "all options removed" result is reachable only on its overflow side
+    ok = False
+    for u in unit:
+        ucfg = build_cfg(u)
+        defs_ = {norm(a.targets[0]): a.value for a in walk_fn(u) if isinstance(a, ast.Assign) and
+                 isinstance(a.targets[0], ast.Name)}
+        for t_ in ucfg.nodes:
+            if t_.kind != 'test' or not (isinstance(t_.ast, ast.Compare) and len(t_.ast.ops) == 1 and
+                                         isinstance(t_.ast.left, ast.Name) and
+                                         isinstance(t_.ast.comparators[0], ast.Name)):
+                continue
+            l_, r_ = t_.ast.left.id, t_.ast.comparators[0].id
+            roles = {}
+            for nm_ in (l_, r_):
+                d_ = norm(defs_[nm_]) if nm_ in defs_ else ''
+                if d_.startswith('len(') and d_.endswith('.nodes)'):
+                    roles[nm_] = 'choices'
+                elif d_.startswith('max(') and '.options' in d_ and 'len(' in d_:
+                    roles[nm_] = 'options'
+            if sorted(roles.values()) != ['choices', 'options']:
+                continue
+            env_over = {k_: (3 if v_ == 'choices' else 2) for k_, v_ in roles.items()}
+            env_eq = {k_: 2 for k_ in roles}
+            from ..rules import intcmp as _ic
+            try:
+                over = bool(_ic.holds(t_.ast, lambda e: False, None, env_over))
+                eq_ = bool(_ic.holds(t_.ast, lambda e: False, None, env_eq))
+            except _ic.NotSimple:
+                continue
+            if over == eq_:
+                continue        # not the strict "more choices than options" comparison
+            lab_over = 'T' if over else 'F'
+            alls = [n_ for n_ in ucfg.nodes if n_.kind == 'stmt' and isinstance(n_.ast, ast.Return) and
+                    isinstance(n_.ast.value, ast.ListComp) and '.options[' in norm(n_.ast.value.elt) and
+                    norm(n_.ast.value.generators[0].iter).endswith('.nodes)')]
+            other = {(t_.id, m_.id, lab_) for m_, lab_ in t_.succ if lab_ != lab_over}
+            if alls and all(ucfg.can_reach(t_, n_) and
+                            not ucfg.can_reach(t_, n_, blocked_edges={(t_.id, m_.id, lab_) for m_, lab_ in t_.succ
+                                                                      if lab_ == lab_over}) for n_ in alls):
+                ok = True
     ctx.ob(rule, fkey(fn, rule, 'permutation-overflow'), ok, fn.where,
            'PERMUTATION: all options are removed exactly when there are more choices than the largest option '
            'count (no injective assignment exists)', '')
